@@ -122,6 +122,10 @@ func buildTar(es []aEntry) ([]byte, error) {
 		if e.Kind == 'd' {
 			h.Typeflag, h.Mode, h.Size = tar.TypeDir, 0o755, 0
 		}
+		if e.Kind == 'z' {
+			// the other data-carrying entry type of the format (a "contiguous file"): a regular file to a reader
+			h.Typeflag = tar.TypeCont
+		}
 		if err := w.WriteHeader(h); err != nil {
 			return nil, err
 		}
